@@ -238,6 +238,7 @@ func runC19(c *Ctx) {
 	checkProtocolSwitch(c)
 	checkDefaultPort(c)
 	checkTargetPlumbing(c)
+	checkHTTPDecoding(c)
 	checkTTLPlumbing(c)
 	checkParseTargetPort(c)
 }
@@ -945,4 +946,166 @@ func callerArgTerms(c *Ctx, f *ssa.Function, p *ssa.Parameter, depth int) []*cor
 		}
 	}
 	return out
+}
+
+// checkHTTPDecoding is R19.5: the HTTP layer hands the library exactly the integers the request states. Every integer field of
+// the TracerouteParams literal built by parseTracerouteParams is a query decoder's result (only converted, or scaled by a
+// constant unit); a decoder returns the parsed number itself or, only when the key is absent or not a number, its default:
+// no path may replace a well-formed number by the default or transform it (the range decision belongs to the library, which
+// rejects); and the handler passes that literal unmodified to RunTraceroute behind err == nil.
+func checkHTTPDecoding(c *Ctx) {
+	R := c.R
+	f := c.P.Func("server.parseTracerouteParams")
+	if f == nil {
+		R.Fail("R19.5", "server.parseTracerouteParams#anchor", 0, "", "anchor server.parseTracerouteParams no longer resolves")
+		return
+	}
+	fn := core.FuncName(f)
+	isDecoder := func(t *core.Term) *ssa.Function {
+		if t.Op != "call" {
+			return nil
+		}
+		g := c.P.Func(t.Name)
+		if g == nil || !core.InModule(g) || len(g.Params) == 0 {
+			return nil
+		}
+		if _, ok := g.Params[0].Type().Underlying().(*types.Map); !ok {
+			return nil
+		}
+		return g
+	}
+	parsedValue := func(t *core.Term) bool {
+		return t.Op == "extract" && t.Name == "0" && len(t.Args) == 1 && t.Args[0].Op == "call" && strings.HasPrefix(t.Args[0].Name, "strconv.")
+	}
+	valueDependent := func(t *core.Term) bool {
+		return t.Has(func(x *core.Term) bool { return parsedValue(x) || isDecoder(x) != nil })
+	}
+	checked := map[*ssa.Function]string{}
+	var faithful func(g *ssa.Function, depth int) string
+	faithful = func(g *ssa.Function, depth int) string {
+		if why, ok := checked[g]; ok {
+			return why
+		}
+		checked[g] = ""
+		if depth > 4 {
+			return "decoder nesting too deep: undecided"
+		}
+		rps, ok := core.ReturnPaths(c.P, g, 2000)
+		if !ok || len(rps) == 0 {
+			return "return paths of " + core.FuncName(g) + " could not be enumerated: undecided"
+		}
+		why := ""
+		for _, rp := range rps {
+			if rp.Ret.Block().Comment == "recover" || len(rp.Results) != 1 {
+				continue
+			}
+			r := rp.Results[0]
+			for r.Op == "conv" && !r.Narrowing() {
+				r = r.Args[0]
+			}
+			switch {
+			case parsedValue(r):
+			case isDecoder(r) != nil:
+				if w := faithful(isDecoder(r), depth+1); w != "" {
+					why = w
+				}
+			case r.Op == "param" || r.Op == "const":
+				for _, a := range rp.Atoms {
+					nn := a.Norm()
+					// the only admissible reasons for the default: key absent, empty, or not a number (parse error)
+					if valueDependent(nn.Cond) && !(nn.Cond.Op == "binop" && nn.Cond.Name == "==" && nn.Cond.Args[1].IsConst("nil")) {
+						why = core.FuncName(g) + " returns its default on a path that tests the decoded number (" + a.String() + "): a well-formed value is silently replaced instead of being handed to the library, which would reject it"
+					}
+				}
+			default:
+				why = core.FuncName(g) + " returns " + r.String() + ": the decoded number is transformed on the way"
+			}
+		}
+		checked[g] = why
+		return why
+	}
+	rps, _ := core.ReturnPaths(c.P, f, 2000)
+	nfields := 0
+	for _, rp := range rps {
+		if len(rp.Results) != 2 || !rp.Results[1].IsConst("nil") {
+			continue
+		}
+		st := rp.Results[0]
+		if !strings.HasPrefix(st.Op, "struct") {
+			R.Fail("R19.5", fn+"#literal", rp.Ret.Pos(), fn, "the parameters returned on success are "+st.String()+", not a literal: undecided")
+			continue
+		}
+		for _, kv := range st.Args {
+			if kv.Op != "kv" || len(kv.Args) != 1 {
+				continue
+			}
+			v := kv.Args[0]
+			if b, _ := core.IntBits(v.Typ); b == 0 {
+				// integer-valued fields only (durations are int64)
+				continue
+			}
+			t := v
+			for {
+				if t.Op == "conv" && !t.Narrowing() {
+					t = t.Args[0]
+					continue
+				}
+				if t.Op == "binop" && t.Name == "*" && t.Args[1].Op == "const" {
+					t = t.Args[0]
+					continue
+				}
+				break
+			}
+			if t.Op == "const" {
+				continue // fixed by the server (MinTTL, Delay)
+			}
+			nfields++
+			key := fn + "#field[" + kv.Name + "]"
+			g := isDecoder(t)
+			if g == nil {
+				R.Fail("R19.5", key, rp.Ret.Pos(), fn, "field "+kv.Name+" is "+v.String()+", not a query decoder's result (converted / scaled by a constant at most)")
+				continue
+			}
+			if why := faithful(g, 0); why != "" {
+				R.Fail("R19.5", key, rp.Ret.Pos(), fn, "field "+kv.Name+": "+why)
+			} else {
+				R.OK("R19.5", key, rp.Ret.Pos(), fn, kv.Name+" = "+t.Name+"(query, "+argStr(t, 1)+", default): the parsed number or, only when absent / not a number, the default")
+			}
+		}
+	}
+	R.Floor("R19.5:decoded-integer-fields", nfields, 5)
+	// the handler
+	h := c.P.Func("(*server.Server).TracerouteHandler")
+	if h == nil {
+		R.Fail("R19.5", "server.TracerouteHandler#anchor", 0, "", "anchor (*server.Server).TracerouteHandler no longer resolves")
+		return
+	}
+	ncall := 0
+	for _, b := range h.Blocks {
+		for _, in := range b.Instrs {
+			call, ok := in.(*ssa.Call)
+			if !ok || !strings.HasSuffix(core.CalleeName(call.Common()), "RunTraceroute") {
+				continue
+			}
+			ncall++
+			for _, pa := range firstPath(h, b) {
+				env := core.NewEnv(c.P, pa)
+				args := call.Common().Args
+				arg := env.Term(args[len(args)-1])
+				okArg := arg.Op == "extract" && arg.Name == "0" && len(arg.Args) == 1 && arg.Args[0].Op == "call" && strings.HasSuffix(arg.Args[0].Name, "parseTracerouteParams")
+				found, sign := atomTrue(env.Atoms(), func(t *core.Term) bool {
+					return t.Op == "binop" && t.Name == "==" && t.Args[1].IsConst("nil") && t.Args[0].Op == "extract" && t.Args[0].Name == "1" && strings.HasSuffix(t.Args[0].Args[0].Name, "parseTracerouteParams")
+				})
+				R.Check(okArg && found && sign, "R19.5", core.FuncName(h)+"#run", call.Pos(), core.FuncName(h), "RunTraceroute receives parseTracerouteParams' result unmodified, behind err == nil", "RunTraceroute is given "+arg.String()+fmt.Sprintf(" (decode error tested: %v)", found && sign))
+			}
+		}
+	}
+	R.Floor("R19.5:handler-runs", ncall, 1)
+}
+
+func argStr(t *core.Term, i int) string {
+	if i < len(t.Args) {
+		return t.Args[i].String()
+	}
+	return "?"
 }
